@@ -768,6 +768,9 @@ func c10(x *mon.Ctx) {
 				c := rcases[i]
 				pcs.Serve(c.Resp)
 				pcs.Mode = []string{"content-length", "chunked", "gzip", "pieces", "pieces-chunked"}[(i/step)%5]
+				if (i/step)%11 == 5 {
+					pcs.Mode = []string{"declares-8-EiB", "declares-3-GiB", "declares-one-more", "declares-one-less-gzip"}[(i/step/11)%4]
+				}
 				if (i/step)%7 == 3 {
 					for u := range c.Resp {
 						pcs.Script[u] = []string{[]string{"429:1", "503:", "502", "301", "204", "304:0"}[(i/step/7)%6]}
@@ -783,9 +786,32 @@ func c10(x *mon.Ctx) {
 				x.Note("hostile-response-over-real-http", fmt.Sprintf("%s/%s/h2=%v/wrapped=%v/%s", c.Class, c.Param, h2, vi == 2, pcs.Mode), false, p != "", p == "")
 				n++
 			}
+			// the honest documents under the framings that announce more than they send, one endpoint at a time
+			for _, mode := range []string{"declares-8-EiB", "declares-3-GiB", "declares-one-more", "declares-one-less-gzip"} {
+				for u := range cs.Resp {
+					pcs.Serve(cs.Resp)
+					pcs.Mode = "content-length"
+					pcs.Lock(func() { pcs.ModeFor = map[string]string{u: mode} })
+					o, _ := mon.Options(cs)
+					o.Getter = &trust.SimpleHTTPSGetter{}
+					if vi == 1 {
+						o.Getter = &trust.RetryHTTPSGetter{Timeout: 300 * time.Millisecond, MaxRetryDelay: 50 * time.Millisecond, Getter: &trust.SimpleHTTPSGetter{}}
+					}
+					m := mon.MessageFor("built", cs.Quote)
+					var e error
+					p := guardHang("verify.TdxQuote(production getter)", func() { e = verify.TdxQuote(m, o) })
+					param := fmt.Sprintf("honest-documents/%s/%s/h2=%v/wrapped=%v", mode, u, h2, vi == 2)
+					if p != "" {
+						x.Violation("hostile-response-over-real-http", param, p, "none", nil)
+					}
+					x.Note("hostile-response-over-real-http", param, e == nil, p != "", p == "")
+					n++
+				}
+			}
+			pcs.Lock(func() { pcs.ModeFor = map[string]string{} })
 			pcs.Close()
 		}
-		x.Require("hostile-response-over-real-http", 0, n, n)
+		x.Require("hostile-response-over-real-http", 0, n/2, n)
 	}
 
 	// 3b. the reporting API on a *different* (structurally arbitrary) message than the one the options verified,
